@@ -450,6 +450,135 @@ def _worker(args):
     return res
 
 
+def growth_twins(ck, seed, n_rounds):
+    """A failed or aborted call, then the user grows the object's lists, then more calls - against the twin history
+    without the failed call.  The array builder rewrites list constraints in place for the duration of a call and adds a
+    size cap for lists of objects; whatever a failed call leaves of that shows once the lists have grown."""
+    import vsc
+    from vsc.model.rand_state import RandState
+    from vsc.model.solve_failure import SolveFailure
+    rng = random.Random("C16/growth/%d" % seed)
+
+    def classes():
+        @vsc.randobj
+        class Item:
+            def __init__(self):
+                self.a = vsc.rand_uint8_t()
+
+        @vsc.randobj
+        class Pkt:
+            def __init__(self):
+                self.k = vsc.uint8_t(0)
+                self.x = vsc.rand_uint8_t()
+                self.boom = False
+                self.items = vsc.randsz_list_t(Item())
+                for _ in range(2):
+                    self.items.append(Item())
+                self.objs = vsc.rand_list_t(Item())
+                for _ in range(2):
+                    self.objs.append(Item())
+                self.l = vsc.rand_list_t(vsc.uint8_t(), 2)
+
+            def pre_randomize(self):
+                if self.boom:
+                    self.boom = False
+                    raise common.FaultInjected("pre_randomize")
+
+            @vsc.constraint
+            def c(self):
+                self.items.size <= 8
+                self.x > self.k
+                with vsc.foreach(self.objs) as e:
+                    e.a < 20
+                with vsc.foreach(self.l, idx=True) as i:
+                    self.l[i] < 30
+
+            @vsc.dynamic_constraint
+            def small(self):
+                with vsc.foreach(self.l, idx=True) as i:
+                    self.l[i] < 10
+        return Item, Pkt
+
+    def fault_unsat_plain(p):
+        p.k = 255
+        try:
+            p.randomize()
+        finally:
+            p.k = 0
+
+    def fault_unsat_with(p):
+        with p.randomize_with() as it:
+            it.x < 5
+            it.x > 9
+
+    def fault_analysis(p):
+        with p.randomize_with() as it:
+            it.objs[1].a[1] == 1          # raises inside the library while the expanded model is analysed
+
+    def fault_pre(p):
+        p.boom = True
+        p.randomize()
+
+    def call_dyn(p):
+        with p.randomize_with() as it:
+            it.small()
+
+    def call_plain(p):
+        p.randomize()
+    firsts = [("unsat-plain", fault_unsat_plain, True), ("unsat-with", fault_unsat_with, True), ("exception-in-analysis", fault_analysis, True),
+              ("pre_randomize-raises", fault_pre, True), ("dynamic-foreach-inline", call_dyn, False), ("plain-success", call_plain, False)]
+
+    def history(Item, Pkt, first, seeds):
+        p = Pkt()
+        if first is not None:
+            p.set_randstate(RandState.mkFromSeed(seeds[0]))
+            try:
+                with common.quiet():
+                    first(p)
+            except (SolveFailure, common.FaultInjected, Exception):
+                pass
+        with common.quiet():
+            for _ in range(4):
+                p.items.append(Item())
+            for _ in range(2):
+                p.objs.append(Item())
+            p.l.append(0)
+            p.l.append(0)
+        out = []
+        for k, sd in enumerate(seeds[1:]):
+            p.set_randstate(RandState.mkFromSeed(sd))
+            try:
+                with common.quiet():
+                    if k % 3 == 2:
+                        with p.randomize_with() as it:
+                            it.small()
+                    else:
+                        p.randomize()
+                out.append(["ok", len(p.items), [int(e.a) for e in p.items], [int(e.a) for e in p.objs], [int(v) for v in p.l], int(p.x)])
+            except Exception as e:
+                out.append(["raised", type(e).__name__])
+        return out
+    for rnd in range(n_rounds):
+        seeds = [rng.randrange(1 << 30) for _ in range(8)]
+        for name, first, is_fault in firsts:
+            Item, Pkt = classes()
+            twin = history(Item, Pkt, None, seeds)
+            Item, Pkt = classes()
+            got = history(Item, Pkt, first, seeds)
+            ck.count("eval_growth_twins")
+            # the constraints the user wrote hold over the grown lists
+            for r in got:
+                if r[0] == "ok" and (any(a >= 20 for a in r[3]) or any(v >= 30 for v in r[4]) or r[1] > 8):
+                    ck.oracle_fail("list-constraint-not-applied-to-grown-list:after:" + name, {"first": name, "seeds": seeds}, r,
+                                   "objs[*].a < 20, l[*] < 30, items.size <= 8 over the lists as they are now")
+                    break
+            if is_fault and got != twin:
+                k = next(i for i in range(len(twin)) if got[i] != twin[i])
+                ck.oracle_fail("later-call-differs-after-failed-call:" + name, {"first": name, "seeds": seeds, "call": k},
+                               got[k], twin[k])
+    ck.sample({"kind": "growth twins", "first_ops": [f[0] for f in firsts], "rounds": n_rounds})
+
+
 def main():
     tier, seed, replay = common.parse_args(sys.argv[1:])
     ck = common.Check("C16", tier, seed, ["C16"])
@@ -460,6 +589,9 @@ def main():
     per = (n + jobs - 1) // jobs
     chunks = [(seed, i, min(n, i + per)) for i in range(0, n, per)]
     results = common.pmap(_worker, chunks)
+    import solvelib as S_
+    S_.install()
+    growth_twins(ck, seed, 40 if tier == "thorough" else 3)
     for r in results:
         for k, v in r["counts"].items():
             ck.count(k, v)
@@ -478,11 +610,15 @@ def main():
                            "of the randomize_with body, in pre_randomize and post_randomize, an unsatisfiable inline block, an exception "
                            "inside the solve; after every op the six stacks + leftover overrides + leftover solver variables are read; "
                            "the ops after the fault are compared with the twin history without the failing op (outcome, lowered hard "
-                           "formulas, values under identical explicit seeds)"})
+                           "formulas, values under identical explicit seeds); growth twins: a failing first call (unsatisfiable plain / "
+                           "inline, an exception while the expanded model is analysed, a raising pre_randomize) or a call through a dynamic "
+                           "constraint holding a foreach, then the user appends to a random-size list of objects, a list of objects and a "
+                           "scalar list, then calls under explicit seeds - compared with the history without the first call, and the list "
+                           "constraints must hold over the grown lists"})
     rc = ck.finish(obligations=obligations,
                    assumptions=["the twin history runs first in the same process (a clean history leaves the shared state clean: checked)",
                                 "covergroup construction and free-standing vsc.randomize_with are not fault-injected in this revision",
-                                "foreach / dist rewrites (the overrides that do_randomize rolls back) are not generated: the override count is 0 in every run"],
+                                "dist rewrites are not fault-injected"],
                    theorems_lost=THEOREMS)
     sys.exit(rc)
 
